@@ -14,6 +14,8 @@ import (
 	"sync/atomic"
 	"time"
 
+	"github.com/emersion/go-ical"
+	"github.com/emersion/go-vcard"
 	"github.com/emersion/go-webdav/caldav"
 	"github.com/emersion/go-webdav/carddav"
 	"github.com/emersion/go-webdav/verifharness/davx"
@@ -129,10 +131,52 @@ func rawCatalogue(server string, u int) []rawReq {
 		l = append(l, rawReq{Name: "OPTIONS " + p.name, Method: "OPTIONS", Path: p.path},
 			rawReq{Name: "GET " + p.name, Method: "GET", Path: p.path}, rawReq{Name: "HEAD " + p.name, Method: "HEAD", Path: p.path})
 	}
+	// mutating requests on the user's own resources (the backend double
+	// records them and keeps its layout, so the answers stay comparable); the
+	// recorded calls are the effect, see rawEffects
+	putBody, putCT := fmt.Sprintf("BEGIN:VCALENDAR\r\nVERSION:2.0\r\nPRODID:-//verif//EN\r\nBEGIN:VEVENT\r\nUID:put-u%d\r\nDTSTAMP:20200913T122640Z\r\nDTSTART:20200913T132640Z\r\nSUMMARY:put of user %d\r\nEND:VEVENT\r\nEND:VCALENDAR\r\n", u, u), "text/calendar; charset=utf-8"
+	if server == "carddav" {
+		putBody, putCT = fmt.Sprintf("BEGIN:VCARD\r\nVERSION:3.0\r\nUID:put-u%d\r\nFN:put of user %d\r\nEND:VCARD\r\n", u, u), "text/vcard; charset=utf-8"
+	}
+	l = append(l,
+		rawReq{Name: "PUT new object", Method: "PUT", Path: coll + "put." + ext, CT: putCT, Body: putBody},
+		rawReq{Name: "PUT other-collection object", Method: "PUT", Path: coll1 + "put." + ext, CT: putCT, Body: putBody},
+		rawReq{Name: "DELETE object", Method: "DELETE", Path: obj1},
+		rawReq{Name: "PROPPATCH collection", Method: "PROPPATCH", Path: coll, CT: xct,
+			Body: `<D:propertyupdate xmlns:D="DAV:"><D:set><D:prop><D:displayname>renamed</D:displayname></D:prop></D:set></D:propertyupdate>`})
+	// requests that are refused: the error paths of the handler run next to
+	// the good requests of the other users (and must not disturb them), and
+	// are themselves answered as they are alone
+	report := `<C:calendar-query xmlns:D="DAV:" xmlns:C="` + nsCal + `"><D:prop><D:getetag/></D:prop><C:filter>`
+	if server == "carddav" {
+		report = `<C:addressbook-query xmlns:D="DAV:" xmlns:C="` + nsCard + `"><D:prop><D:getetag/>`
+	}
+	l = append(l,
+		rawReq{Name: "PROPFIND cut-off collection", Method: "PROPFIND", Path: coll, Depth: "1", CT: xct, Body: `<D:propfind xmlns:D="DAV:"><D:prop><D:getetag/>`},
+		rawReq{Name: "PROPFIND not-xml object", Method: "PROPFIND", Path: obj, Depth: "0", CT: "text/plain", Body: "no XML at all"},
+		rawReq{Name: "PROPFIND bad-depth home-set", Method: "PROPFIND", Path: hs, Depth: "2", CT: xct, Body: bodies[0].body},
+		rawReq{Name: "PROPFIND allprop missing", Method: "PROPFIND", Path: coll + "missing." + ext, Depth: "0", CT: xct, Body: bodies[0].body},
+		rawReq{Name: "REPORT cut-off collection", Method: "REPORT", Path: coll, Depth: "1", CT: xct, Body: report},
+		rawReq{Name: "REPORT unknown collection", Method: "REPORT", Path: coll, Depth: "1", CT: xct, Body: `<D:version-tree xmlns:D="DAV:"/>`},
+		rawReq{Name: "LOCK object", Method: "LOCK", Path: obj},
+		rawReq{Name: "DELETE missing", Method: "DELETE", Path: coll + "missing." + ext})
 	return l
 }
 
-func rawBackends(server string, n int, delay func()) http.Handler {
+// rawBackends returns the handler and a function that reads the backends'
+// call logs: every user's requests address that user's resources only, so a
+// call that reaches user u's backend with a path outside /u<u>/, or an upload
+// that carries another user's object, is an effect no request has alone.
+func rawBackends(server string, n int, delay func()) (http.Handler, func() []string) {
+	foreign := func(u int, op, p, uid string) string {
+		if p != "" && p != "/" && !strings.HasPrefix(p, fmt.Sprintf("/u%d/", u)) {
+			return fmt.Sprintf("the backend of user %d was asked for %s %s", u, op, p)
+		}
+		if uid != "" && uid != fmt.Sprintf("put-u%d", u) {
+			return fmt.Sprintf("the backend of user %d was given the object %s in %s %s", u, uid, op, p)
+		}
+		return ""
+	}
 	if server == "caldav" {
 		m := &doubles.MultiCal{Users: map[string]*doubles.CalBackend{}, Delay: delay}
 		for u := 0; u < n; u++ {
@@ -148,7 +192,21 @@ func rawBackends(server string, n int, delay func()) http.Handler {
 			}
 			m.Users[fmt.Sprint(u)] = b
 		}
-		return doubles.WithUser(&caldav.Handler{Backend: m})
+		return doubles.WithUser(&caldav.Handler{Backend: m}), func() []string {
+			var odd []string
+			for u := 0; u < n; u++ {
+				for _, call := range m.Users[fmt.Sprint(u)].Calls() {
+					uid := ""
+					if cal, ok := call.Arg.(*ical.Calendar); ok && call.Op == "PutCalendarObject" && cal != nil && len(cal.Children) > 0 {
+						uid, _ = cal.Children[0].Props.Text(ical.PropUID)
+					}
+					if s := foreign(u, call.Op, call.Path, uid); s != "" {
+						odd = append(odd, s)
+					}
+				}
+			}
+			return odd
+		}
 	}
 	m := &doubles.MultiCard{Users: map[string]*doubles.CardBackend{}, Delay: delay}
 	for u := 0; u < n; u++ {
@@ -163,7 +221,21 @@ func rawBackends(server string, n int, delay func()) http.Handler {
 		}
 		m.Users[fmt.Sprint(u)] = b
 	}
-	return doubles.WithUser(&carddav.Handler{Backend: m})
+	return doubles.WithUser(&carddav.Handler{Backend: m}), func() []string {
+		var odd []string
+		for u := 0; u < n; u++ {
+			for _, call := range m.Users[fmt.Sprint(u)].Calls() {
+				uid := ""
+				if cd, ok := call.Arg.(vcard.Card); ok && call.Op == "PutAddressObject" {
+					uid = cd.Value(vcard.FieldUID)
+				}
+				if s := foreign(u, call.Op, call.Path, uid); s != "" {
+					odd = append(odd, s)
+				}
+			}
+		}
+		return odd
+	}
 }
 
 // rawSig canonicalises an answer: status, the headers that describe the
@@ -231,17 +303,17 @@ func runRawSchedule(c *fw.Ctx, cfg schedCfg, idx int) {
 	type doer interface {
 		Do(*http.Request) (*http.Response, error)
 	}
-	mkClient := func() (doer, string, func()) {
-		h := rawBackends(server, cfg.N, delay)
+	mkClient := func() (doer, string, func(), func() []string) {
+		h, effects := rawBackends(server, cfg.N, delay)
 		if cfg.Transport != "tcp" {
-			return &doubles.InProc{Handler: h}, "http://dav.test", func() {}
+			return &doubles.InProc{Handler: h}, "http://dav.test", func() {}, effects
 		}
 		srv := httptest.NewServer(h)
 		tr := &http.Transport{MaxIdleConnsPerHost: 64}
 		return &http.Client{Transport: tr, CheckRedirect: func(*http.Request, []*http.Request) error { return http.ErrUseLastResponse }}, srv.URL,
-			func() { tr.CloseIdleConnections(); srv.Close() }
+			func() { tr.CloseIdleConnections(); srv.Close() }, effects
 	}
-	hc, base, closeSolo := mkClient()
+	hc, base, closeSolo, effects := mkClient()
 	defer closeSolo()
 	send := func(u int, q rawReq) (string, error) {
 		var body *bytes.Reader
@@ -286,10 +358,16 @@ func runRawSchedule(c *fw.Ctx, cfg schedCfg, idx int) {
 			c.Observe("raw_solo_status_"+server, q.Method+" "+strings.SplitN(s, "|", 2)[0], 1)
 		}
 	}
+	if odd := effects(); len(odd) > 0 {
+		// the same invariant holds for the sequential phase; there it is not
+		// a matter of concurrency
+		c.Inconclusive(fmt.Sprintf("C18 raw schedule: foreign backend calls while requests ran one at a time: %v", odd[0]))
+		return
+	}
 	delaying.Store(true)
 	if (cfg.Rep+cfg.N+cfg.GOMAXPROCS)%2 == 1 {
 		var closeConc func()
-		hc, base, closeConc = mkClient() // send uses these from now on
+		hc, base, closeConc, effects = mkClient() // send uses these from now on
 		defer closeConc()
 	}
 	ov := newOverlap()
@@ -332,6 +410,16 @@ func runRawSchedule(c *fw.Ctx, cfg schedCfg, idx int) {
 	recordOverlap(c, cfg, ov)
 	if len(ioErrs) > 0 {
 		c.Inconclusive(fmt.Sprintf("C18 raw schedule: %d exchanges failed as I/O, first: %s", len(ioErrs), ioErrs[0]))
+	}
+	c.Observe("raw_effects", server+": call logs of all users read after the concurrent phase", 1)
+	if odd := effects(); len(odd) > 0 {
+		sort.Strings(odd)
+		if len(odd) > 8 {
+			odd = odd[:8]
+		}
+		c.Report(fmt.Sprintf("%s|%s|raw|backend-call-for-another-users-resource", server, cfg.Transport),
+			fmt.Sprintf("requests that address their own user's resources only reached a backend with foreign paths or objects: %v", odd),
+			map[string]interface{}{"cfg": cfg, "odd": odd})
 	}
 	for _, m := range bad {
 		c.Report(fmt.Sprintf("%s|%s|raw %s|result-differs-from-solo", server, cfg.Transport, strings.Join(strings.Fields(m.Op)[:2], " ")),
